@@ -35,7 +35,7 @@ impl FixtureDatabase {
 @tags C16 C08
 @ret r
 @nocontinue 1
-@closure 1 |d: &&FixtureDefinition| -> (b: bool) ensures b == (pbv(&d.file_path) == pv(file_path))
+@closure find:1 |d: &&FixtureDefinition| -> (b: bool) ensures b == (pbv(&d.file_path) == pv(file_path))
 @sig
     requires wf_names(self.defs()),
     ensures
